@@ -15,38 +15,54 @@
 (* running flag.  Two interleaved arms - stop, stop, publish, publish -     *)
 (* leave the first timer replaced with its channel open: it then delivers a *)
 (* timeout although a later timer is the armed one.                         *)
+(* Readers: another goroutine holds the timer's mutex for a moment (one of  *)
+(* the getters).  Every critical section waits for it - except in design    *)
+(* "tryLockStop" (a seeded change): stopHandshakeTimer uses TryLock and      *)
+(* returns without effect when the mutex is busy.  `want` is what the        *)
+(* callers asked for: 0 after a stop call returned, the timer's id after an  *)
+(* arm; StopHolds: a timeout is only ever delivered by the timer the callers *)
+(* want armed.                                                               *)
 (* C14 is the refinement into AbsTimer: the abstract timer is armed by      *)
 (* PublishStep and stopped by StopStep.                                     *)
 (***************************************************************************)
 EXTENDS Naturals, Sequences, FiniteSets
-CONSTANTS MaxArms, Procs, Design        \* Design: "asIs" | "noChanCheck"
-VARIABLES n, running, cur, chClosed, gor, fires, pc, mine
-vars == <<n, running, cur, chClosed, gor, fires, pc, mine>>
+CONSTANTS MaxArms, Procs, Design,       \* Design: "asIs" | "noChanCheck" | "tryLockStop"
+          Readers                       \* TRUE: a reader may hold the timer's mutex
+VARIABLES n, running, cur, chClosed, gor, fires, pc, mine, busy, want
+vars == <<n, running, cur, chClosed, gor, fires, pc, mine, busy, want>>
 Ids == 1..MaxArms
 Init == /\ n = 0 /\ running = FALSE /\ cur = 0 /\ chClosed = {} /\ gor = [i \in Ids |-> "none"] /\ fires = <<>>
-        /\ pc = [p \in Procs |-> "idle"] /\ mine = [p \in Procs |-> 0]
+        /\ pc = [p \in Procs |-> "idle"] /\ mine = [p \in Procs |-> 0] /\ busy = FALSE /\ want = 0
 
 \* stopHandshakeTimer (also the first half of setHandshakeTimer)
 DoStop == /\ chClosed' = (IF running THEN chClosed \cup {cur} ELSE chClosed) /\ running' = FALSE
-StopCall(p) == /\ pc[p] = "idle" /\ DoStop /\ UNCHANGED <<n, cur, gor, fires, pc, mine>>
-ArmStop(p)  == /\ pc[p] = "idle" /\ n < MaxArms /\ DoStop /\ n' = n + 1 /\ mine' = [mine EXCEPT ![p] = n + 1]
-               /\ pc' = [pc EXCEPT ![p] = "stopped"] /\ UNCHANGED <<cur, gor, fires>>
-ArmPublish(p) == /\ pc[p] = "stopped" /\ running' = TRUE /\ cur' = mine[p]
+StopCall(p) == /\ pc[p] = "idle" /\ ~busy /\ DoStop /\ want' = 0 /\ UNCHANGED <<n, cur, gor, fires, pc, mine, busy>>
+\* the seeded design: the mutex is busy, TryLock fails, the call returns - the caller takes the timer for stopped
+StopSkipped(p) == /\ Design = "tryLockStop" /\ pc[p] = "idle" /\ busy /\ want' = 0
+                  /\ UNCHANGED <<n, running, cur, chClosed, gor, fires, pc, mine, busy>>
+ArmStop(p)  == /\ pc[p] = "idle" /\ ~busy /\ n < MaxArms /\ DoStop /\ n' = n + 1 /\ mine' = [mine EXCEPT ![p] = n + 1]
+               /\ pc' = [pc EXCEPT ![p] = "stopped"] /\ UNCHANGED <<cur, gor, fires, busy, want>>
+ArmPublish(p) == /\ pc[p] = "stopped" /\ ~busy /\ running' = TRUE /\ cur' = mine[p] /\ want' = mine[p]
                  /\ gor' = [gor EXCEPT ![mine[p]] = "waiting"] /\ pc' = [pc EXCEPT ![p] = "idle"]
-                 /\ UNCHANGED <<n, chClosed, fires, mine>>
+                 /\ UNCHANGED <<n, chClosed, fires, mine, busy>>
+ReaderIn  == Readers /\ ~busy /\ busy' = TRUE /\ UNCHANGED <<n, running, cur, chClosed, gor, fires, pc, mine, want>>
+ReaderOut == busy /\ busy' = FALSE /\ UNCHANGED <<n, running, cur, chClosed, gor, fires, pc, mine, want>>
 \* a closed stop channel ends the goroutine (stops happen well before expiry)
 ExitClosed(g) == /\ gor[g] = "waiting" /\ g \in chClosed /\ gor' = [gor EXCEPT ![g] = "exited"]
-                 /\ UNCHANGED <<n, running, cur, chClosed, fires, pc, mine>>
+                 /\ UNCHANGED <<n, running, cur, chClosed, fires, pc, mine, busy, want>>
 \* expiry: select may pick the timer branch even if the channel is closed as well; the check under the mutex decides
-Fire(g) == /\ gor[g] = "waiting"
+Fire(g) == /\ gor[g] = "waiting" /\ ~busy
            /\ IF running /\ (Design = "noChanCheck" \/ cur = g)
               THEN running' = FALSE /\ fires' = Append(fires, g)
               ELSE UNCHANGED <<running, fires>>
-           /\ gor' = [gor EXCEPT ![g] = "exited"] /\ UNCHANGED <<n, cur, chClosed, pc, mine>>
-Next == \/ \E p \in Procs : StopCall(p) \/ ArmStop(p) \/ ArmPublish(p)
+           /\ gor' = [gor EXCEPT ![g] = "exited"] /\ UNCHANGED <<n, cur, chClosed, pc, mine, busy, want>>
+Next == \/ \E p \in Procs : StopCall(p) \/ StopSkipped(p) \/ ArmStop(p) \/ ArmPublish(p)
         \/ \E g \in Ids : ExitClosed(g) \/ Fire(g)
+        \/ ReaderIn \/ ReaderOut
 Spec == Init /\ [][Next]_vars
 Abs == INSTANCE AbsTimer WITH TimerIds <- Ids, armed <- (IF running THEN cur ELSE 0), fires <- fires
 Refines == Abs!Spec
+\* a timeout is delivered only by the timer the callers want armed (with one caller: never after its stop call returned)
+StopHolds == [][fires' # fires => want = fires'[Len(fires')]]_vars
 NoStaleFire == \A i, j \in 1..Len(fires) : i # j => fires[i] # fires[j]
 ====
